@@ -718,8 +718,13 @@ pub fn check(prop: &dyn Property, ctx: &Ctx) -> CheckOutcome {
         return CheckOutcome { exit_code: 2 };
     }
     if !dead.is_empty() {
-        say!("[{}] HARNESS: probes never hit: {:?}", id, dead);
-        return CheckOutcome { exit_code: 2 };
+        if exclusive_note.is_some() {
+            // the reduced, one-at-a-time pass is too small to promise every rare shape
+            say!("[{}] note: probes not hit in the reduced exclusive-mode pass: {:?}", id, dead);
+        } else {
+            say!("[{}] HARNESS: probes never hit: {:?}", id, dead);
+            return CheckOutcome { exit_code: 2 };
+        }
     }
     CheckOutcome { exit_code: 0 }
 }
